@@ -304,9 +304,6 @@ impl Check for C19Check {
             Tier::Thorough => 60_000,
         }
     }
-    fn watchdog_s(&self, _tier: Tier) -> u64 {
-        120
-    }
     fn generate(&self, seed: u64, index: u64, tier: Tier) -> Value {
         let mut r = Rng::new(seed);
         let nf = r.usize(1, 4);
@@ -365,7 +362,8 @@ impl Check for C19Check {
                 threads: *r.pick(&[1u32, 2, 3, 5, 8, 16]),
                 sched_seed: r.next_u64() >> 1,
                 hash_seed: r.next_u64() >> 1,
-                verbose: r.chance(1, 3),
+                // (the progress bar of --verbose costs about 3 ms per event: not on scale scenarios)
+                verbose: r.chance(1, 3) && index % 149 != 11,
                 real_rayon: false,
                 sched_replay: None,
                 io_seed: if r.chance(1, 3) { Some(r.next_u64() >> 1) } else { None },
@@ -590,6 +588,7 @@ impl Check for C19Check {
                 real_rayon: cfg.real_rayon,
                 io_seed: cfg.io_seed,
                 io_hard: io_hard_of(cfg, &paths),
+                stale_output: stale_of(cfg.argv_seed, "serial_number,trg_time,reconstructed_x,reconstructed_y,reconstructed_z", "{k},12.5,0.001,0.002,0.003", stats),
             };
             if cfg.io_seed.is_some() {
                 stats.fault("io_short_reads_writes_and_eintr");
@@ -696,7 +695,7 @@ impl Check for C19Check {
         let mut stails: Vec<Vec<u8>> = Vec::new();
         for (ci, cfg) in scn.cfgs.iter().take(2).enumerate() {
             let argv: Vec<_> = Rng::new(cfg.argv_seed ^ 0x55).perm(paths.len()).into_iter().map(|k| path_form(cfg.argv_seed ^ 0x5500, k)).collect();
-            let env = RunEnv { hash_seed: Some(cfg.hash_seed), real_rayon: true, io_seed: cfg.io_seed, io_hard: io_hard_of(cfg, &paths), ..Default::default() };
+            let env = RunEnv { hash_seed: Some(cfg.hash_seed), real_rayon: true, io_seed: cfg.io_seed, io_hard: io_hard_of(cfg, &paths), stale_output: stale_of(cfg.argv_seed ^ 0x5500, "serial_number,trg_time,input,drift_veto,scaledown,pulser,output", "{k},12.5,1,2,3,4,5", stats), ..Default::default() };
             let extra: Vec<&str> = if cfg.verbose { vec!["--verbose"] } else { vec![] };
             stats.executions += 1;
             let res = run_binary("alpha-g-trg-scalers", &scratch.dir, &argv, &extra, &format!("sca{ci}"), &env);
@@ -897,6 +896,22 @@ fn hard_fault_excuses(res: &crate::procsim::RunResult, cfg: &RunCfg, stats: &mut
     } else {
         stats.probe("hard_io_fault_makes_program_fail");
         true
+    }
+}
+
+/// Does a file already exist at the output path? Decided by the configuration's argv seed: in a
+/// quarter of the runs a much longer earlier output, in an eighth a short fragment.
+fn stale_of(argv_seed: u64, header: &str, row: &str, stats: &mut Stats) -> Option<Vec<u8>> {
+    match (argv_seed >> 13) % 8 {
+        0 | 1 => {
+            stats.fault("output_path_holds_longer_earlier_output");
+            Some(crate::procsim::stale_csv(header, row, 5000))
+        }
+        2 => {
+            stats.fault("output_path_holds_shorter_earlier_output");
+            Some(crate::procsim::stale_csv(header, row, 0))
+        }
+        _ => None,
     }
 }
 
